@@ -140,7 +140,7 @@ def run(eng, ctx):
         ctx.check(not carried, "C16.D2", mb.qualname, "label is a function of the signal ID", expected="table entry of this ID (or the N/A default) - independent of the IDs scanned before it",
                   found=("depends on " + show(carried[0])[:60] + ", a value carried over from earlier iterations") if carried else "no loop-carried value", **eng.loc(mb, e.node))
         for g, leaf in alts:
-            ok = leaf[0] == "idx" and is_const(leaf[2]) and leaf[1][0] == "call" and leaf[1][2][0] == "attr" and leaf[1][2][2] == "get"
+            ok = ((leaf[0] == "idx" and is_const(leaf[2])) or (leaf[0] == "proj" and isinstance(leaf[2], int))) and leaf[1][0] == "call" and leaf[1][2][0] == "attr" and leaf[1][2][2] == "get"  # entry[k], or the k-th name of `a, b = entry`
             onlyopt = all(c[0] == "cmp" and LF(c[2]) and is_const(c[3]) for c, _ in g)
             ctx.check(ok and onlyopt, "C16.D2", mb.qualname, f"label under {guard_text(g)[:50]}", expected="component of the table entry, selected by the option only", found=show(leaf)[:80], **eng.loc(mb, e.node))
             if ok:
